@@ -3667,6 +3667,14 @@ pub mod verif_schema_access {
     pub fn enum_layout(e: &SchemaEnum) -> (bool, Option<usize>, Option<usize>) {
         (e.has_explicit_repr, e.size, e.alignment)
     }
+    /// The enum arm of diff_schema (private `diff_enum`), callable on bare SchemaEnum values.
+    pub fn diff_enum(a: &SchemaEnum, b: &SchemaEnum, path: String) -> Option<String> {
+        super::diff_enum(a, b, path)
+    }
+    /// The enum arm of Schema::layout_compatible (private `SchemaEnum::layout_compatible`).
+    pub fn enum_layout_compatible(a: &SchemaEnum, b: &SchemaEnum) -> bool {
+        a.layout_compatible(b)
+    }
 }
 
 /// The schema represents the save file format
